@@ -120,7 +120,9 @@ ShowRule(w, v) ==
                ELSE wide \o (IF wide # "" /\ small # "" THEN v.wide ELSE "") \o small
       kw    == KindWord(w, v)
       cm    == IF w.comment = "" THEN "" ELSE "\"" \o w.comment \o "\""
-  IN sel \o (IF kw # "" /\ sel # "" THEN " " ELSE "") \o kw
+      \* a comment in front of the small-range selectors (`"by appointment":Mo-Fr 10:00-12:00`); only without wide selectors
+      lead  == IF "lead" \in DOMAIN w /\ w.lead # "" THEN "\"" \o w.lead \o "\":" ELSE ""
+  IN lead \o sel \o (IF kw # "" /\ sel # "" THEN " " ELSE "") \o kw
          \o (IF cm # "" /\ (sel # "" \/ kw # "") THEN " " ELSE "") \o cm
 
 ShowSep(op, v) == CASE op = "normal" -> v.semi [] op = "additional" -> ", " [] OTHER -> " || "
@@ -141,7 +143,12 @@ DenSpan(sp) == [s |-> sp.s, e |-> sp.e, open_end |-> sp.form \in {"plus", "range
 DenRule(w) ==
   [op |-> w.op,
    kind |-> IF w.kindword = "" THEN "open" ELSE w.kindword,
-   comments |-> IF w.comment = "" THEN <<>> ELSE <<w.comment>>,
+   \* the comments of a rule are kept sorted and without duplicates; TLC has no order on strings, so a rule written with a
+   \* leading comment says itself which of the two comes first (leadFirst)
+   comments |-> IF "lead" \in DOMAIN w /\ w.lead # ""
+                THEN (IF w.comment = "" \/ w.comment = w.lead THEN <<w.lead>>
+                      ELSE IF w.leadFirst THEN <<w.lead, w.comment>> ELSE <<w.comment, w.lead>>)
+                ELSE IF w.comment = "" THEN <<>> ELSE <<w.comment>>,
    year |-> IF w.always THEN <<>> ELSE MapSeq(w.year, DenYear),
    monthday |-> IF w.always THEN <<>> ELSE MapSeq(w.monthday, DenMonthday),
    week |-> IF w.always THEN <<>> ELSE MapSeq(w.week, DenYear),
